@@ -181,6 +181,31 @@ def shrink(c, still_bad):
     return cur
 
 
+CLAUSE_ON_RESULT = __import__("re").compile(r"\)\s*\[\s*(filter|calc|keep|drop|rename|sub)\b")
+
+
+def classify_disagreement(c, er):
+    """stable key of a disagreement: WHAT kind of failure on WHICH script shape (matched against the known findings)"""
+    if not er["ok"]:
+        kind, code = er["err"]
+        msg = er.get("msg", "")
+        if kind in ("RawDuckDB", "RawPython"):
+            sym = f"raw-{code}"
+        elif code == "2-1-1-1":  # the engine's catch-all for an unexpected DuckDB error
+            sym = ("decimal-scale-overflow" if ("Needed scale" in msg or "Out of Range" in msg) else
+                   "sql-binder-error" if "Binder Error" in msg else "sql-parser-error" if "Parser Error" in msg else "duckdb-runtime-error")
+        else:
+            sym = f"vtl-error-{code}"
+    else:
+        sym = "wrong-result"
+    if c.get("nested"):
+        shape = "clause-applied-to-operator-result" if CLAUSE_ON_RESULT.search(c["script"]) else "nested-operators"
+        return f"nested:{shape}:{'failure' if sym != 'wrong-result' and 'decimal' not in sym else sym}"
+    if sym == "decimal-scale-overflow":
+        return "number-multiplication:decimal-scale-overflow"
+    return sym + ":" + "+".join(sorted(k for k in c["hist"] if not k.startswith("c:")))[:80]
+
+
 def run_k(ctx, pid, n_flat, n_nested, kinds, tag):
     """corpus first, then generated flat scripts, then a small nested stream; returns stats"""
     import hashlib
@@ -222,11 +247,7 @@ def run_k(ctx, pid, n_flat, n_nested, kinds, tag):
         if d is None:
             continue
         dis += 1
-        raw = (not er["ok"]) and er["err"][0] in ("RawDuckDB", "RawPython")
-        if c.get("nested"):
-            key = "nested-dataset-operators:" + (f"raw-{er['err'][1]}" if raw else "wrong-result")
-        else:
-            key = ("raw:" + er["err"][1] if raw else "wrong-result") + ":" + "+".join(sorted(k for k in c["hist"] if not k.startswith("c:")))[:80]
+        key = classify_disagreement(c, er)
         if ctx._known_key(key) is None and dis <= 3:
             def still_bad(cc):
                 mm = eval_model([cc], tag + "_shr")[0]
